@@ -42,6 +42,7 @@ type Fault struct {
 	Short      int   // for writes: number of bytes actually delivered before Err
 	CloseAfter bool  // close the connection (locally) right after the operation completes
 	AfterAll   bool  // for writes: deliver ALL bytes to the peer, then report Err (the error arrives after the flush)
+	Delay      time.Duration // the operation stalls this long before it proceeds (a full send buffer, a slow link)
 }
 
 // Conn is one end of an in-memory connection.
@@ -149,6 +150,9 @@ func (c *Conn) Write(p []byte) (int, error) {
 	var ferr error
 	if inj := c.inject.Load(); inj != nil {
 		if f := (*inj)("write", idx); f != nil {
+			if f.Delay > 0 {
+				time.Sleep(f.Delay)
+			}
 			if f.CloseAfter {
 				defer c.Close()
 			}
